@@ -42,6 +42,9 @@ func runC11(w *World, tier string) (bool, interface{}) {
 		}
 	}
 	c := NewCluster(w, n)
+	// the board is unreachable for single submissions now and then (also for the
+	// one that carries the victim's refusal); operators submit again
+	c.L.Faults.BoardDownAtSubmit = w.Tape.Bool(1, 2, "boardOutages")
 	c.L.Faults.PermuteResults = true
 	members := AllMembers(n)
 	D := w.Tape.Choose(n, "dealer")
